@@ -140,6 +140,9 @@ func (ex *Exec) lookup(fr *Frame, in *ssa.Lookup) Value {
 
 // mapFind locates the entry for k, forking over candidates when k or stored keys are symbolic.
 func (ex *Exec) mapFind(m *MapObj, k Value) (string, bool) {
+	if m.tag != 0 && !ex.initing && len(ex.locks) == 0 {
+		ex.unlockedReads[m] = true
+	}
 	if lz, ok := k.(*LazyV); ok {
 		k = ex.force(lz)
 	}
